@@ -221,8 +221,12 @@ public:
             _svc.cancel();
 
         // errors, if any, are propagated to ops
-        for (auto& op : write_queue)
+        for (auto& op : write_queue) {
+            // a completion handler invoked by this loop may have cancelled the client
+            if (!ec && !_svc._stream.is_open())
+                ec = asio::error::operation_aborted;
             op.complete(ec);
+        }
 
         if (
             ec == asio::error::operation_aborted ||
